@@ -606,7 +606,10 @@ def run_corpus(progs, workdir, rlib, deps):
     return res
 
 
-def judge_all(rlib, workdir='/verif/.cache/c04'):
+_VERIF = os.path.dirname(os.path.dirname(os.path.abspath(__file__)))
+
+
+def judge_all(rlib, workdir=os.path.join(_VERIF, '.cache', 'c04')):
     """-> (region programs with verdicts, fixed programs with verdicts, notes)"""
     deps = os.path.dirname(rlib)
     reg = corpus()
@@ -646,8 +649,8 @@ if __name__ == '__main__':
         print('c04: ' + msg)
         sys.exit(0)
     t = time.time()
-    env = dict(os.environ, CARGO_TARGET_DIR='/verif/.cache/harness-target', RUSTFLAGS='--cfg bump_scope_verif', CARGO_NET_OFFLINE='true')
-    rlib, rc, err = find_rlib('/verif/harness', '/verif/.cache/harness-target', env)
+    env = dict(os.environ, CARGO_TARGET_DIR=os.path.join(_VERIF, '.cache', 'harness-target'), RUSTFLAGS='--cfg bump_scope_verif', CARGO_NET_OFFLINE='true')
+    rlib, rc, err = find_rlib(os.path.join(_VERIF, 'harness'), os.path.join(_VERIF, '.cache', 'harness-target'), env)
     reg, fx, notes = judge_all(rlib)
     bad = 0
     import collections
